@@ -349,10 +349,16 @@ def val(rng, tag, filed=None):
 
 def body_call(rng, kind, tag, keys):
     if kind in ('cache', 'fanout'):
-        op = rng.choices(['set', 'add', 'incr', 'get', 'pop', 'delete', 'touch', 'contains'], [30, 8, 12, 16, 10, 12, 4, 8])[0]
+        op = rng.choices(['set', 'add', 'incr', 'get', 'pop', 'delete', 'touch', 'contains', 'clear', 'evict', 'expire'], [30, 8, 12, 16, 10, 12, 4, 8, 2, 4, 2])[0]
+        if op in ('clear', 'expire'):
+            return {'op': op, 'retry': True}           # bulk removals: their batches are transactions nested in the block
+        if op == 'evict':
+            return {'op': 'evict', 'tag': 'grp', 'retry': True}
         c = {'op': op, 'key': rng.choice(keys)}
         if op in ('set', 'add'):
             c['value'] = val(rng, tag)
+            if rng.random() < 0.3:
+                c['tag'] = 'grp'
         if op in ('set', 'add', 'touch'):
             c['expire'] = rng.choice([None, None, None, 100])
         if op == 'incr':
@@ -449,7 +455,8 @@ def gen_block(rng, kind, keys):
 
 def gen_setup(rng, kind, keys):
     if kind in ('cache', 'fanout'):
-        return [{'op': 'set', 'key': k, 'value': val(rng, 's' + k, filed=rng.random() < 0.6)} for k in keys if rng.random() < 0.75]
+        return [dict({'op': 'set', 'key': k, 'value': val(rng, 's' + k, filed=rng.random() < 0.6)}, **({'tag': 'grp'} if rng.random() < 0.4 else {}))
+                for k in keys if rng.random() < 0.75]
     if kind == 'deque':
         return [{'op': 'append', 'value': val(rng, 's%d' % i, filed=rng.random() < 0.6)} for i in range(rng.randrange(0, 4))]
     return [{'op': 'setitem', 'key': k, 'value': val(rng, 's' + k, filed=rng.random() < 0.6)} for k in keys if rng.random() < 0.75]
@@ -563,6 +570,19 @@ def corpus():
                        {'op': 'raise_in_block', 'base': True}, {'op': 'end_block'}, {'op': 'set', 'key': 'd', 'value': 4, 'retry': False}]
                       + readback('cache', ['a', 'c', 'd']), [{'op': 'set', 'key': 'e', 'value': 5, 'retry': False}, {'op': 'get', 'key': 'a'}, {'op': 'get', 'key': 'd'}]],
          'schedule': [0] * 60 + [1] * 20, 'flavour': 'abort_then_work', 'shards': 2},
+        # bulk removals (their 100-row batches are transactions nested in the block) over file-backed values inside a block that then raises:
+        # the rows come back and their value files must still be there
+        {'check': 'block', 'kind': 'cache', 'mode': 'own',
+         'setup': [{'op': 'set', 'key': 'k', 'value': BIG, 'tag': 'grp'}, {'op': 'set', 'key': 'm', 'value': BIG2}, {'op': 'set', 'key': 'e', 'value': BIG, 'expire': -1}],
+         'programs': [[{'op': 'begin_block'}, {'op': 'evict', 'tag': 'grp', 'retry': t}, {'op': 'expire', 'retry': t}, {'op': 'clear', 'retry': t}, {'op': 'raise_in_block'},
+                       {'op': 'end_block'}] + readback('cache', ['k', 'm']), [{'op': 'get', 'key': 'k'}]],
+         'schedule': [0] * 80 + [1] * 10, 'flavour': 'abort_solo', 'shards': 2},
+        {'check': 'block', 'kind': 'index', 'mode': 'own', 'setup': [{'op': 'setitem', 'key': 'k', 'value': BIG}, {'op': 'setitem', 'key': 'm', 'value': 5}],
+         'programs': [[{'op': 'begin_block'}, {'op': 'clear'}, {'op': 'raise_in_block'}, {'op': 'end_block'}] + readback('index', ['k', 'm'])],
+         'schedule': [], 'flavour': 'abort_solo', 'shards': 2},
+        {'check': 'block', 'kind': 'deque', 'mode': 'own', 'setup': [{'op': 'append', 'value': BIG}, {'op': 'append', 'value': 2}],
+         'programs': [[{'op': 'begin_block'}, {'op': 'clear'}, {'op': 'raise_in_block'}, {'op': 'end_block'}] + readback('deque', [])],
+         'schedule': [], 'flavour': 'abort_solo', 'shards': 2},
         # an inner call raises AFTER it announced the removal of the file it was going to replace (a tag SQLite cannot bind makes the
         # UPDATE fail), the program catches the exception and the block commits: the row still refers to the old file, which must stay
         {'check': 'block', 'kind': 'cache', 'mode': 'own', 'setup': [{'op': 'set', 'key': 'k', 'value': BIG}, {'op': 'set', 'key': 'm', 'value': BIG2}],
